@@ -12,6 +12,7 @@ Reading guide:
 -/
 import Flax.Proofs.BridgeExample
 import Flax.Proofs.BridgeHier
+import Flax.Proofs.BridgeRng
 
 namespace Flax.C18
 open Flax.Bridge
@@ -422,22 +423,141 @@ theorem tolinen_state_roundtrip (r : Reg) (hi : r.Inj) (hb : r.Bounded) (S : For
       simp only [List.cons.injEq] at hp
       rw [← hp.2, hq] at hl'; cases hl'
 
-/-- **one `apply` of ToLinen against the NNX module** (partial: a single call, the state compared up to
-`Equiv`; what is missing for the full `tolinen_refines_nnx` is stated in the evidence's `model_partial`):
-on the collections that expose a state `S`, `apply` rebuilds a state with the same Variables as `S`,
-reseeds it with the keys Linen provides, returns what the NNX module's call returns on it, and hands the
-module's new state to `_update_variables`. -/
-theorem tolinen_refines_nnx_partial (m : NnxMod α ι ο) (r : Reg) (hi : r.Inj) (hb : r.Bounded)
-    (S : Forest (NVar α)) (hS : AttrsOk r S)
-    (hnn : ∀ q v, leafAtF S q = some v → r.nameOf v.vtype ≠ some "nnx")
-    (keys : Keys) (isMutable : String → Bool) (x : ι) :
-    ∃ V S0, encodeState r (fun _ => true) S = .ok (r, V) ∧ decodeVars r V = .ok (r, S0) ∧ Equiv S0 S ∧
-      toLinenApply m r V keys isMutable x =
-        (do let (out, S') ← m.call (m.reseed S0 keys) x
-            let (r2, upd) ← encodeState r isMutable S'
-            pure (out, r2, upd)) := by
-  obtain ⟨V, S0, h1, h2, h3⟩ := tolinen_state_roundtrip r hi hb S hS hnn
-  refine ⟨V, S0, h1, h2, h3, ?_⟩
-  simp only [toLinenApply, h2, bind, Except.bind, pure, Except.pure]
+/-- **an `apply` returns what the NNX module returns on the state rebuilt from the caller's collections**,
+merged with the graph definition read from the `nnx` collection and reseeded with the keys Linen's
+`make_rng` derives from the rngs of *this* apply call at the wrapper's scope; the new graph definition is
+written back exactly when `nnx` is mutable -/
+theorem tolinen_apply_output {γ : Type} (m : NnxMod α ι ο γ) (r : Reg) (path : Path) (lv : LinenVars α γ)
+    (rngs : Keys) (isMutable : String → Bool) (x : ι) (o : ο) (r2 : Reg) (g? : Option γ) (upd : Forest (LBox α))
+    (h : toLinenApply m r path lv rngs isMutable x = .ok (o, r2, g?, upd)) :
+    ∃ g r1 S g' S', lv.gdef = some g ∧ decodeVars r lv.vars = .ok (r1, S) ∧
+      m.call g (m.reseed S (linenRngsDict path rngs)) x = .ok (o, g', S') ∧
+      encodeState r1 isMutable S' = .ok (r2, upd) ∧ g? = (if isMutable "nnx" then some g' else none) := by
+  simp only [toLinenApply] at h
+  cases hg : lv.gdef with
+  | none => simp [hg, bind, Except.bind] at h
+  | some g =>
+    cases hdec : decodeVars r lv.vars with
+    | error e => simp [hg, hdec, bind, Except.bind, pure, Except.pure] at h
+    | ok p1 =>
+      obtain ⟨r1, S⟩ := p1
+      cases hcall : m.call g (m.reseed S (linenRngsDict path rngs)) x with
+      | error e => simp [hg, hdec, hcall, bind, Except.bind, pure, Except.pure] at h
+      | ok p2 =>
+        obtain ⟨o1, g', S'⟩ := p2
+        cases henc : encodeState r1 isMutable S' with
+        | error e => simp [hg, hdec, hcall, henc, bind, Except.bind, pure, Except.pure] at h
+        | ok p3 =>
+          obtain ⟨r2', upd'⟩ := p3
+          simp only [hg, hdec, hcall, henc, bind, Except.bind, pure, Except.pure, Except.ok.injEq, Prod.mk.injEq] at h
+          obtain ⟨rfl, rfl, rfl, rfl⟩ := h
+          exact ⟨g, r1, S, g', S', rfl, rfl, hcall, henc, rfl⟩
+
+/-- **`init` of a ToLinen module** returns what the freshly constructed NNX module returns and leaves the
+caller holding the graph definition and collections that expose the constructed state (`LSim`) -/
+theorem tolinen_init {γ : Type} (m : NnxMod α ι ο γ) (r : Reg) (hi : r.Inj) (hb : r.Bounded) (path : Path)
+    (rngs : Keys) (x : ι) (g : γ) (S : Forest (NVar α))
+    (hc : m.construct (linenRngsDict path rngs) = .ok (g, S)) (hS : AttrsOk r S) (hnn : NoNnx r S)
+    (o : ο) (g' : γ) (S' : Forest (NVar α)) (hcall : m.call g S x = .ok (o, g', S')) :
+    ∃ lv, toLinenInit m r path rngs x = .ok (o, r, lv) ∧ LSim r lv ⟨g, S⟩ :=
+  linit_sim m r hi hb path rngs x g S hc hS hnn o g' S' hcall
+
+/-- **ToLinen refines NNX, for every module and every sequence of calls**: started in step (`LSim`, as `init`
+leaves them), a Linen caller who applies the wrapper with per-call rngs and `mutable` filters and folds the
+returned collections back into his variables leaf by leaf gets, on every history, exactly the outputs of
+an NNX user who holds the module itself, reseeds it with the same derived keys, calls it, and keeps the new
+values of the Variables whose collection was mutable (and the new graph definition when `nnx` was); they
+are in step again afterwards: the caller's collections expose the user's state, each Variable under the
+collection named after its exact type (`tolinen_exposes_by_exact_type`), and hold his graph definition. -/
+theorem tolinen_refines_nnx {γ : Type} (m : NnxMod α ι ο γ) (hm : NModOk m) (r : Reg) (path : Path)
+    (hist : List (LCall ι)) (lv : LinenVars α γ) (u : NnxUser α γ) (hsim : LSim r lv u)
+    (outs : List ο) (u' : NnxUser α γ) (h : runNnxUser m r path u hist = .ok (outs, u')) :
+    ∃ lv', runLinenCaller m r path lv hist = .ok (outs, lv') ∧ LSim r lv' u' :=
+  lrun_sim m hm r path hist lv u hsim outs u' h
+
+/-- non-vacuity: the toy NNX module (`y = w·x + c`, every call bumps `c` and the graph definition)
+satisfies `NModOk`; `init` puts a caller in step, and the theorem applies to a history in which
+`batch_stats` and `nnx` are mutable in turn -/
+example : ∃ lv lv', LSim builtinReg lv ⟨0, toyNState⟩ ∧
+    runLinenCaller toyN builtinReg [] lv
+      [([], fun c => c == "batch_stats", 3), ([], fun _ => false, 4), ([], fun _ => true, 5)] = .ok ([6, 9, 11], lv') := by
+  have hreg := builtinReg_ok
+  have hS : AttrsOk builtinReg toyNState := by
+    refine ⟨by simp [toyNState, WFF, Tree.WF, dkeys], ?_, ?_⟩
+    · intro q v h
+      have := flattenF_complete _ q v h
+      simp [toyNState, flattenF, Tree.flatten] at this
+      rcases this with ⟨_, rfl⟩ | ⟨_, rfl⟩ <;> exact Or.inl rfl
+    · intro q v h
+      have := flattenF_complete _ q v h
+      simp [toyNState, flattenF, Tree.flatten] at this
+      rcases this with ⟨_, rfl⟩ | ⟨_, rfl⟩
+      · exact ⟨"params", by decide⟩
+      · exact ⟨"batch_stats", by decide⟩
+  have hnn : NoNnx builtinReg toyNState := by
+    intro q v h
+    have := flattenF_complete _ q v h
+    simp [toyNState, flattenF, Tree.flatten] at this
+    rcases this with ⟨_, rfl⟩ | ⟨_, rfl⟩ <;> decide
+  obtain ⟨lv, _, hsim⟩ := tolinen_init toyN builtinReg hreg.1 hreg.2 [] [] 1 0 _ rfl hS hnn 2 1 _ rfl
+  have href : ∃ u', runNnxUser toyN builtinReg [] ⟨0, toyNState⟩
+      [([], fun c => c == "batch_stats", 3), ([], fun _ => false, 4), ([], fun _ => true, 5)] = .ok ([6, 9, 11], u') := by
+    have hd : (runNnxUser toyN builtinReg [] ⟨0, toyNState⟩
+        [([], fun c => c == "batch_stats", 3), ([], fun _ => false, 4), ([], fun _ => true, 5)]).toOption.map Prod.fst
+        = some [6, 9, 11] := by decide
+    cases hr : runNnxUser toyN builtinReg [] ⟨0, toyNState⟩
+        [([], fun c => c == "batch_stats", 3), ([], fun _ => false, 4), ([], fun _ => true, 5)] with
+    | error e => rw [hr] at hd; simp [Except.toOption] at hd
+    | ok p =>
+      rw [hr] at hd
+      simp only [Except.toOption, Option.map_some, Option.some.injEq] at hd
+      exact ⟨p.2, by rw [← hd]⟩
+  obtain ⟨u', href⟩ := href
+  obtain ⟨lv', hlv', _⟩ := tolinen_refines_nnx toyN toyN_ok builtinReg [] _ lv _ hsim _ u' href
+  exact ⟨lv, lv', hsim, hlv'⟩
+
+/-! ## random keys, as symbolic terms -/
+
+/-- **ToLinen: no stale keys.** Whatever keys and counters the module's streams carried (from
+construction or from an earlier call), after `apply`'s reseed the `j`-th key a stream named in the Linen
+rngs hands out is `fold_in(make_rng-key of this apply's rngs at the wrapper's scope, j)`: a function of
+the rngs passed to *this* call, the scope path and `j` only. Streams not named keep going. -/
+theorem tolinen_reseed_fresh (ss : List (String × RngStream)) (path : Path) (rngs : Keys) (n : String) (s : RngStream)
+    (hs : (n, s) ∈ ss) :
+    (∀ k, (rngs.find? fun e => e.1 = n) = some (n, k) →
+      ∃ s', (n, s') ∈ reseedStreams ss (linenRngsDict path rngs) ∧
+        ∀ m, drawN s' m = (List.range m).map fun j => KeyT.fold (.linen (.base k) path 0) j) ∧
+    ((rngs.find? fun e => e.1 = n) = none → (n, s) ∈ reseedStreams ss (linenRngsDict path rngs)) := by
+  refine ⟨?_, ?_⟩
+  · intro k hk
+    refine ⟨⟨.linen (.base k) path 0, 0⟩, ?_, ?_⟩
+    · simp only [reseedStreams, List.mem_map]
+      refine ⟨(n, s), hs, ?_⟩
+      simp only [find?_linenRngsDict, hk, Option.map_some]
+    · intro m; rw [drawN_eq]; simp
+  · intro hk
+    simp only [reseedStreams, List.mem_map]
+    exact ⟨(n, s), hs, by simp only [find?_linenRngsDict, hk, Option.map_none]⟩
+
+/-- **ToNNX: keys are never reused.** The `i`-th draw from the wrapper's `rngs` (one per `lazy_init` or
+call) hands stream `n` the key `(n, c + i)`; with distinct stream names, two different calls never give
+the wrapped module a key in common. -/
+theorem tonnx_keys_never_reused (r : Rngs) (hn : (r.streams.map Prod.fst).Nodup) (i j : Nat) (hij : i ≠ j) :
+    (r.after i).draw.1 = (r.streams.map fun nc => (nc.1, (⟨nc.1, nc.2 + i⟩ : Key))) ∧
+    ∀ e ∈ (r.after i).draw.1, ∀ e' ∈ (r.after j).draw.1, e.2 ≠ e'.2 := by
+  have hd : ∀ i, (r.after i).draw.1 = (r.streams.map fun nc => (nc.1, (⟨nc.1, nc.2 + i⟩ : Key))) := by
+    intro i; simp [Rngs.draw, Rngs.after_streams, List.map_map, Function.comp_def]
+  refine ⟨hd i, ?_⟩
+  intro e he e' he' heq
+  rw [hd i] at he; rw [hd j] at he'
+  obtain ⟨a, ha, rfl⟩ := List.mem_map.mp he
+  obtain ⟨b, hb, rfl⟩ := List.mem_map.mp he'
+  simp only [Key.mk.injEq] at heq
+  have hab : a = b := eq_of_fst_eq r.streams hn a ha b hb heq.1
+  subst hab
+  omega
+
+example : (⟨[("params", 0), ("dropout", 3)]⟩ : Rngs).after 2 |>.draw.1
+    = [("params", ⟨"params", 2⟩), ("dropout", ⟨"dropout", 5⟩)] := by decide
 
 end Flax.C18
